@@ -61,7 +61,8 @@ def gen_workers(rng, npts):
 def gen_points(rng, a, b):
     kind = rng.choice(['scatter', 'scatter', 'grid2d', 'default'])
     pts = {'kind': kind, 'seed': rng.getrandbits(32), 'edges': rng.random() < 0.5,
-           'layout': rng.choice(['C', 'C', 'F', 'T', 'strided'])}
+           'layout': rng.choice(['C', 'C', 'F', 'T', 'strided']),
+           'dtype': rng.choice(['float64', 'float64', 'float32', 'int', 'list'])}
     if kind == 'scatter':
         pts['n'] = rng.choice([1, 2, 3, 5, 7, 11, 13, 17, 31, 64, 97, 101, 127, 200, rng.randint(1, 200)])
     elif kind == 'grid2d':
@@ -292,6 +293,15 @@ def make_points(pts, a, b):
             if i < k and rng.random() < 0.6:
                 j = int(rng.integers(0, k))
                 flat_x[j], flat_y[j] = ex, ey
+    dt = pts.get('dtype', 'float64')
+    if dt == 'float32':
+        xs, ys = xs.astype(np.float32), ys.astype(np.float32)
+    elif dt == 'int':
+        # integer coordinates inside the domain (0, 1, 2, ... <= a)
+        xs = np.minimum(np.floor(xs), np.floor(a)).astype(np.int64)
+        ys = np.minimum(np.floor(ys), np.floor(b)).astype(np.int64)
+    elif dt == 'list' and xs.ndim == 1:
+        return [float(v) for v in xs], [float(v) for v in ys]
     return relayout(xs, pts.get('layout', 'C')), relayout(ys, pts.get('layout', 'C'))
 
 
